@@ -394,6 +394,47 @@ def scenarios(tier="quick"):
     return out
 
 
+# ------------------------------------------------------------------------------------------------ C14: spherical / index groups, several points
+SPH_IDX_PROTO = [("SphericalRange", ("Double",)), ("SphericalAzimuth", ("Single",)), ("SphericalElevation", ("ScaledInteger", -90000, 90000, 0.001, 0.0)),
+                 ("RowIndex", ("Integer", 0, 1000)), ("ColumnIndex", ("Integer", -5, 70000)), ("ReturnIndex", ("Integer", 0, 3)), ("ReturnCount", ("Integer", 0, 3))]
+SPH_ROW_PROTO = [("SphericalRange", ("Double",)), ("SphericalAzimuth", ("Single",)), ("SphericalElevation", ("ScaledInteger", -90000, 90000, 0.001, 0.0)), ("RowIndex", ("Integer", -7, 1000))]
+XYZ_DOUBLE_PROTO = [("CartesianX", ("Double",)), ("CartesianY", ("Double",)), ("CartesianZ", ("Double",))]
+XYZ_SCALED_PROTO = [("CartesianX", ("ScaledInteger", -1000, 1000, 0.25, -3.0)), ("CartesianY", ("Single",)), ("CartesianZ", ("Double",))]
+
+
+def pcw_bounds_only_claims(s, I):
+    """descriptor-level claims only (the section bytes are the subject of pcw_claims)"""
+    out = [("PointCloudWriter::new accepts the prototype", z3.BoolVal(s.new.vname == "Ok"))]
+    if s.new.vname != "Ok":
+        return out
+    ok = all(x.vname == "Ok" for x in s.steps) and s.fin.vname == "Ok"
+    out.append(("every add_point and finalize returns Ok", z3.BoolVal(ok)))
+    if not ok:
+        return out
+    pcs = s.holder["pcs"].items
+    out.append(("one point cloud descriptor is registered", z3.BoolVal(len(pcs) == 1)))
+    if len(pcs) == 1:
+        names = I.struct_fields["PointCloud"]
+        pc = pcs[0]
+        out.append(("descriptor: record count = points added", pc.fields[names.index("records")] == U64(len(s.vals))))
+        out += bounds_claims(I, s, pc)
+        out += limits_claims(I, s, pc)
+    return out
+
+
+def bounds_scenarios(tier="quick"):
+    out = []
+    combos = [("spherical + row/column/return index", SPH_IDX_PROTO, 1), ("xyz scaled/single/double", XYZ_SCALED_PROTO, 1)]
+    if tier != "quick":
+        # two points: min/max over the points, every ordering a symbolic path (slow: FP comparisons in every feasibility query)
+        combos.append(("xyz double", XYZ_DOUBLE_PROTO, 2))
+    for key, proto, k in combos:
+        rp = PcwReplay(_pcw_op_factory(proto), _pcw_extra_factory(proto, k), _pcw_patch_factory(proto))
+        out.append(Scenario("PointCloudWriter new; %d x add_point; finalize — bounds of prototype %s, any non-NaN values" % (k, key),
+                            pcw_scenario(proto, k), pcw_bounds_only_claims, max_paths=6000, time_budget=1500, replayer=rp))
+    return out
+
+
 # ------------------------------------------------------------------------------------------------ C10: values the prototype cannot represent
 def reject_scenario(proto, kind):
     """kind: 'range' any i64 for the first integer attribute | 'arity' one value too few | 'type' wrong value kind in slot 0"""
